@@ -19,6 +19,11 @@ Lemma basic_pass_order_pinned :
   BASIC_PASS_ORDER = map s ["regex_tokinizer"; "alias_tokinizer"; "token_generator"]%string.
 Proof. reflexivity. Qed.
 
+(* Tokinizer::token_infos (rule, unit and date PATTERNS): months, regex parsers, aliases -- Model/Api.v token_infos *)
+Lemma pattern_pass_order_pinned :
+  PATTERN_PASS_ORDER = map s ["language_tokinizer"; "regex_tokinizer"; "alias_tokinizer"]%string.
+Proof. reflexivity. Qed.
+
 (* the regex parsers, in order (regex_tokinizer/mod.rs TOKEN_REGEX_PARSER) -- Model/Lexer.v *)
 Lemma parser_order_pinned :
   PARSER_ORDER = map s ["comment"; "field"; "money"; "atom"; "percent"; "timezone"; "time"; "number"; "text";
